@@ -36,7 +36,13 @@ type XObject struct {
 
 // NewXObject returns a new object with the given properties
 func NewXObject(properties map[string]XValue) *XObject {
-	return NewXLazyObject(func() map[string]XValue { return properties })
+	x := NewXLazyObject(func() map[string]XValue { return properties })
+
+	// properties are already known so there's nothing to be lazy about.. and it means that objects created this
+	// way (e.g. package level values like the false test result) are never modified by being read and so can be
+	// shared between goroutines
+	x.ensureInitialized()
+	return x
 }
 
 // NewXLazyObject returns a new lazy object with the source function and default
